@@ -357,10 +357,21 @@ def gen_method_unit(sc, sidecar_path, repo):
             raise UnitError('anchor', str(e))
         start, end = body.start, body.end
         reps = []
+        world = sc.get('world')
+        self_methods = sc.get('self_methods', [])
         def scan(ts):
             i = 0
             while i < len(ts):
                 t = ts[i]
+                if world and t.is_p('.'):
+                    # R10: `.iter().for_each(|v| { v.1.call(()); })`  ->  `.for_each_call_in(world)`   (exact idiom only)
+                    j10 = rxprep.match_seq(ts, i, ['.', 'iter', '()', '.', 'for_each', '(…)'])
+                    if j10 > 0 and re.fullmatch(r'\|(\w+)\|\{\1\.1\.call\(\(\)\);?\}', re.sub(r'\s+', '', src[ts[j10 - 1].start + 1:ts[j10 - 1].end - 1])):
+                        reps.append((t.start, ts[j10 - 1].end, '.for_each_call_in(world)')); i = j10; continue
+                    # R9: `RECV.call(())`  ->  `RECV.call_in(world)`: calling a stored action is an effect on the world log
+                    j9 = rxprep.match_seq(ts, i, ['.', 'call', '(…)'])
+                    if j9 > 0 and re.sub(r'\s+', '', src[ts[j9 - 1].start:ts[j9 - 1].end]) == '(())':
+                        reps.append((t.start, ts[j9 - 1].end, '.call_in(world)')); i = j9; continue
                 if t.kind == 'group':
                     scan(t.kids)
                 elif t.is_p('|') or t.is_id('move'):
@@ -375,8 +386,17 @@ def gen_method_unit(sc, sidecar_path, repo):
                         reps.append((t.start, ts[jr - 1].end, '(&self_.%s)' % ts[i + 2].text)); i = jr; continue
                     if jf > 0 and ts[i + 2].text in flatten:
                         reps.append((t.start, ts[i + 4].end, 'self_.%s__%s' % (ts[i + 2].text, ts[i + 4].text)))
+                        if world:   # the flattened field's methods may re-enter this type (teardown): they get the world log too
+                            reps.append((ts[i + 5].start, ts[i + 5].start + 1, '(world, ' if ts[i + 5].kids else '(world'))
                         scan(ts[i + 5].kids)
                         i = jf; continue
+                    jm = rxprep.match_seq(ts, i, ['self', '.', 'ident', '(…)'])
+                    if jm > 0 and ts[i + 2].text in self_methods:
+                        # R6': `self.M(args)` -> `<unit>_M(self_, world, args)`: the callee is another lifted method of this unit, the
+                        # call is checked against the CALLEE'S CONTRACT (modular)
+                        reps.append((t.start, ts[i + 3].start + 1, '%s_%s(self_, %s' % (op, ts[i + 2].text, ('world, ' if ts[i + 3].kids else 'world') if world else '')))
+                        scan(ts[i + 3].kids)
+                        i = jm; continue
                     raise UnitError('not_extractable', '%s::%s uses self other than through a listed field' % (sc['impl'], m['fn']))
                 i += 1
         scan(body.kids)
@@ -397,22 +417,35 @@ def gen_method_unit(sc, sidecar_path, repo):
                 t = t.replace('$%d' % k, pnames[k - 1])
             return t
         ptypes = m.get('param_types', [])
-        params = ['self_: &mut %s' % model] + ['%s: %s' % (n, ptypes[k]) for k, n in enumerate(pnames)]
+        params = ['self_: &mut %s' % model] + (['world: &mut %s' % world] if world else []) + ['%s: %s' % (n, ptypes[k]) for k, n in enumerate(pnames)]
         req = [subst(x) for x in m.get('requires', [])]
         ens = [subst(x) for x in m.get('ensures', [])]
         fn_name = '%s_%s' % (op, m['fn'])
+        ret = (' -> (%s)' % m['returns']) if m.get('returns') else ''
+        dec = ('    decreases %s\n' % subst(m['decreases'])) if m.get('decreases') else ''
         header = '// extracted method %s::%s: %s chars %d..%d (line %d) sha256=%s\n// replacements: %s\n' % (
             sc['impl'], m['fn'], sc['file'], start, end, rxprep.line_of(src, start), sha, json.dumps([(src[a:b], n) for a, b, n in sorted(reps)]))
-        f = header + 'fn %s(%s)\n    requires\n%s    ensures\n%s{\n    let _unit: () = /*BEGIN-EXTRACTED*/ %s /*END-EXTRACTED*/;\n%s}\n' % (
-            fn_name, ', '.join(params), _fmt_list(req), _fmt_list(ens), text, ('    proof { %s }\n' % subst(m['proof'])) if m.get('proof') else '')
+        if ret:
+            f = header + 'fn %s(%s)%s\n    requires\n%s    ensures\n%s%s{\n    /*BEGIN-EXTRACTED*/ %s /*END-EXTRACTED*/\n}\n' % (
+                fn_name, ', '.join(params), ret, _fmt_list(req or ['true']), _fmt_list(ens), dec, text)
+        else:
+            f = header + 'fn %s(%s)\n    requires\n%s    ensures\n%s%s{\n    let _unit: () = /*BEGIN-EXTRACTED*/ %s /*END-EXTRACTED*/;\n%s}\n' % (
+                fn_name, ', '.join(params), _fmt_list(req or ['true']), _fmt_list(ens), dec, text, ('    proof { %s }\n' % subst(m['proof'])) if m.get('proof') else '')
         fns.append(f)
-        twins.append('fn %s_twin(%s)\n    requires\n%s    ensures false,\n{\n}\n' % (fn_name, ', '.join(params), _fmt_list(req)))
+        twins.append('fn %s_twin(%s)\n    requires\n%s    ensures false,\n{\n}\n' % (fn_name, ', '.join(params), _fmt_list(req or ['true'])))
         meta.append({'fn': fn_name, 'file': sc['file'], 'line': rxprep.line_of(src, start), 'span': [start, end], 'sha256': sha,
                      'replacements': [(src[a:b], n) for a, b, n in sorted(reps)], 'loops': 0})
     prelude = open(os.path.join(VERIF, 'models', 'prelude.rs')).read()
-    text = prelude + '\nverus! {\n// ---- specification (contracts/%s) ----\n%s\n// ---- extracted from /repo ----\n%s\n} // verus!\nfn main() {}\n' % (
-        os.path.basename(sidecar_path), sc.get('spec', ''), '\n'.join(fns))
+    text = prelude + '\nverus! {\n// ---- specification (contracts/%s) ----\n%s\n%s\n// ---- extracted from /repo ----\n%s\n} // verus!\nfn main() {}\n' % (
+        os.path.basename(sidecar_path), sc.get('spec', ''), sc.get('model_code', ''), '\n'.join(fns))
     twin_text = prelude + '\nverus! {\n%s\n%s\n} // verus!\nfn main() {}\n' % (sc.get('spec', ''), '\n'.join(twins))
+    for fn_name, needle in sc.get('ctor_facts', []):
+        try:
+            fbody, _ = rxprep.find_fn(toks, fn_name, sc.get('impl'))
+            if re.sub(r'\s+', '', needle) not in re.sub(r'\s+', '', src[fbody.start:fbody.end]):
+                sk_problems.append('wiring fact not found in fn %s: `%s`' % (fn_name, needle))
+        except (AnchorLost, LexError) as e:
+            sk_problems.append('wiring fact: %s' % e)
     return {'op': op, 'text': text, 'twins': twin_text, 'facts': {}, 'skeleton_problems': sk_problems, 'outer_cells': [],
             'extracted': meta, 'props': sc.get('props', []), 'known_fail': {}, 'fn_names': [m_['fn'] for m_ in meta],
             'twin_names': [m_['fn'] + '_twin' for m_ in meta]}
@@ -570,7 +603,7 @@ def gen_unit(sidecar_path: str, repo: str) -> dict:
             f += '    proof { %s }\n' % post
         f += '}\n'
         fns.append(f)
-        twins.append('fn %s_twin(%s)\n    requires\n%s    ensures false,\n{\n}\n' % (fn_name, ', '.join(params), _fmt_list(req)))
+        twins.append('fn %s_twin(%s)\n    requires\n%s    ensures false,\n{\n}\n' % (fn_name, ', '.join(params), _fmt_list(req or ['true'])))
         extracted_meta.append({'fn': fn_name, 'file': sc['file'], 'line': rxprep.line_of(src, ex.span[0]),
                                'span': list(ex.span), 'sha256': ex.sha256, 'replacements': ex.replacements,
                                'loops': ex.loops})
